@@ -60,9 +60,11 @@ def run_lifemt(run, lib, tag, rounds, order, extra_ini=b"", timeout=120):
         status, err = p.returncode, p.stderr.decode(errors="replace")
     except subprocess.TimeoutExpired as ex:
         status, err = "timeout", (ex.stderr or b"").decode(errors="replace")
-    marks, cur, errs = [], None, []
+    marks, cur, errs, masks = [], None, [], []
     for f in (parse_rec(rec) if os.path.exists(rec) else []):
-        if f[0] == "mark":
+        if f[0] == "mask" and len(f) > 4:
+            masks.append((int(f[1]), int(f[2]), f[3], f[4]))
+        elif f[0] == "mark":
             cur = (f[1], int(f[2]))
         elif f[0] == "alloc" and cur:
             dd = kv(f[1:])
@@ -70,7 +72,7 @@ def run_lifemt(run, lib, tag, rounds, order, extra_ini=b"", timeout=120):
             cur = None
         elif f[0] == "allocerr":
             errs.append((f[1], f[2] if len(f) > 2 else "?"))
-    return {"status": status, "stderr": err, "marks": marks, "errs": errs, "dir": d}
+    return {"status": status, "stderr": err, "marks": marks, "errs": errs, "masks": masks, "dir": d}
 
 
 def coq_query(run, name, text, timeout=120):
